@@ -27,9 +27,12 @@ def nshards():
     return max(1, min(MAX_PROCS, vlib.NPROC))
 
 
-def scenarios(rel):
+UPPER_DRIVER = "ustep"     # driver/ustep.ml: machine M2 (whole allocator), transcripts of `schedrun --api upper`
+
+
+def scenarios(rel, api="lower"):
     """built-in scenarios of the harness built for this geometry: [(name, threads)]"""
-    rc, out = vlib.sh([os.path.join(rel, HARNESS_BIN), "--list"])
+    rc, out = vlib.sh([os.path.join(rel, HARNESS_BIN), "--list", "--api", api])
     res = []
     for ln in out.split("\n"):
         m = re.match(r"(\S+) threads=(\d+) ", ln)
@@ -68,9 +71,14 @@ def parse_driver_output(out, features=()):
     return fails, summary
 
 
+def suite_of(exe):
+    """the suite argument of a driver = its name (driver/step.exe -> step, driver/ustep.exe -> ustep)"""
+    return os.path.splitext(os.path.basename(exe))[0]
+
+
 def _pipeline(rel, exe, args, keys):
     h = [os.path.join(rel, HARNESS_BIN)] + [str(a) for a in args]
-    d = [exe, DRIVER, "-"] + ([keys] if keys else [])
+    d = [exe, suite_of(exe), "-"] + ([keys] if keys else [])
     return h, d
 
 
@@ -179,7 +187,7 @@ def replay(ctx, rel, exe, scenario, sched, extra=()):
     rc, out = vlib.sh([os.path.join(rel, HARNESS_BIN)] + args + ["--out", tr])
     if rc != 0:
         return [Failure("DRIVER", "[run]", "schedrun failed rc=%d %s" % (rc, out[-300:]))], {}, ""
-    rc, out = vlib.sh([exe, DRIVER, tr])
+    rc, out = vlib.sh([exe, suite_of(exe), tr])
     fails, summ = parse_driver_output(out)
     return fails, summ, open(tr).read()
 
@@ -236,8 +244,9 @@ def replay_lines(failure, shrunk, features=()):
                   "REPLAY scenario=%s features=%s schedule=%s" % (failure.scenario, feat, ",".join(map(str, given)) or "-"),
                   "# schedule executed: %s" % ",".join(map(str, executed)),
                   "# " + f.text[:600],
-                  "# re-run: harness/schedrun --mode replay --scenario %s --schedule %s | driver/step.exe step -" % (
-                      failure.scenario, ",".join(map(str, given)) or "-"),
+                  "# re-run: harness/schedrun --mode replay --scenario %s --schedule %s | driver/%s.exe %s -" % (
+                      failure.scenario, ",".join(map(str, given)) or "-",
+                      "ustep" if failure.scenario.startswith("u-") else "step", "ustep" if failure.scenario.startswith("u-") else "step"),
                   "# transcript:"]
         lines += tr.rstrip("\n").split("\n")[:200]
     else:
